@@ -1,5 +1,6 @@
 import RxnModel.Proofs.KeyedState
 import RxnModel.Proofs.KeyedStateLsm
+import RxnModel.Proofs.KeyedStateNorm
 import RxnModel.Props.C07
 /-!
 # C03 — keyed state behaves as a per-key map the handler fully controls
@@ -8,9 +9,12 @@ Property theorems only. Model: `Model/KeyedState.lean` (the store and the operat
 specification of the DKV; that the real LSM refines that specification under every timing of rotation, flush and
 compaction is C07) and the key encoders of `Model/KeySpace.lean` (schema bytes regenerated from the source).
 
-Explicit preconditions (what the encoders can represent): subject keys shorter than 2^32 bytes (`uint32(len)`), namespaces
-of at most 255 bytes (`uint8(len(namespace))`). The property quantifies over subject keys, entry keys and values, not
-over namespaces; `namespace_256_aliases` records what happens at 256 bytes (a guard, not a claimed violation).
+Explicit preconditions (what the encoders can represent): subject keys shorter than 2^32 bytes (`uint32(len)`,
+`Act.KeysOK` / `Batch.KeysOK`) and, LOCAL to the key whose state is concluded, namespaces of at most 255 bytes in the
+mutations returned for that key (`NsOKFor k`, from `uint8(len(namespace))`): what other keys' mutations use is
+irrelevant. `getState_spec_general` needs no namespace precondition at all (it speaks about the normalised mutations);
+`namespace_256_aliases` records what happens at 256 bytes (a guard, not a claimed violation). The property quantifies
+over subject keys, entry keys and values, not over namespaces.
 -/
 namespace Rxn.C03
 open Rxn Rxn.KeyedState
@@ -43,9 +47,19 @@ theorem decode_encode (kgc : Nat) (k ns d : Bytes) (hk : k.length < 2 ^ 32) (hn 
 entry keys and values), `GetState k` is exactly the map obtained by replaying, in order, the mutations returned for `k`:
 same entries (`content`: nothing of another key, another namespace or a timer appears; an overwritten or deleted entry
 does not reappear), every namespace once, no empty namespace, entries in entry-key order. -/
-theorem getState_spec (kgc : Nat) (acts : List Act) (hwf : ∀ a ∈ acts, a.WF) (k : Bytes) (hk : k.length < 2 ^ 32) :
+theorem getState_spec (kgc : Nat) (acts : List Act) (hkeys : ∀ a ∈ acts, a.KeysOK) (k : Bytes) (hk : k.length < 2 ^ 32)
+    (hns : NsOKFor k (acts.flatMap Act.lwrites)) :
     Matches (getState kgc (run kgc [] acts) k) (specLookup (acts.flatMap Act.lwrites) k) :=
-  getState_matches kgc acts hwf k hk
+  getState_matches_local kgc acts hkeys k hk hns
+
+/-- **Without any namespace precondition**: a mutation whose namespace is longer than 255 bytes addresses the entry of
+its normalised form (`normW`: the first `len % 256` bytes as namespace, the rest in front of the entry key), and
+`GetState k` is exactly the per-key map of the normalised mutations. (`normW` is the identity up to 255 bytes.) -/
+theorem getState_spec_general (kgc : Nat) (acts : List Act) (hkeys : ∀ a ∈ acts, a.KeysOK) (k : Bytes)
+    (hk : k.length < 2 ^ 32) :
+    Matches (getState kgc (run kgc [] acts) k) (specLookup ((acts.flatMap Act.lwrites).map normW) k) ∧
+    (∀ w : LWrite, w.2.1.length ≤ 255 → normW w = w) :=
+  ⟨getState_matches_norm kgc acts hkeys k hk, normW_id⟩
 
 /-- the per-key map is controlled by the mutations naming that key only: mutations for other keys and timer writes do
 not change what `GetState k` returns (the specification side of `getState_spec` made explicit) -/
@@ -66,22 +80,24 @@ theorem spec_ignores_others (acts : List Act) (k : Bytes) :
 timers set and fired in between; an event is a keyed event or a timer-expired event, both carry a key): invocation `i` receives one key state per distinct event key, and the state for key `k`
 is the map obtained by replaying all mutations returned by invocations `< i` for `k`, in invocation and result order —
 the mutations of invocation `i` itself are applied only after the handler returned. -/
-theorem batch_semantics (kgc : Nat) (bs : List Batch) (hwf : ∀ b ∈ bs, b.WF) (i : Nat) (b : Batch) (hb : bs[i]? = some b) :
+theorem batch_semantics (kgc : Nat) (bs : List Batch) (hkeys : ∀ b ∈ bs, b.KeysOK) (i : Nat) (b : Batch)
+    (hb : bs[i]? = some b) :
     ∃ obs, (runBatches kgc [] bs)[i]? = some obs ∧
       obs.map (·.1) = distinctKeys b.events ∧ (distinctKeys b.events).Nodup ∧
       (∀ k, k ∈ distinctKeys b.events ↔ k ∈ b.events) ∧
-      ∀ k st, (k, st) ∈ obs → Matches st (specLookup (mutsBefore bs i) k) := by
+      ∀ k st, (k, st) ∈ obs → NsOKFor k (mutsBefore bs i) → Matches st (specLookup (mutsBefore bs i) k) := by
   have h := runBatches_get kgc bs [] i b hb
   simp only [run, List.foldl_nil, List.nil_append] at h
   refine ⟨_, h, ?_, distinctKeys_nodup _, distinctKeys_mem _, ?_⟩
   · simp [List.map_map, Function.comp_def]
-  · intro k st hmem
+  · intro k st hmem hns
     simp only [List.mem_map, Prod.mk.injEq] at hmem
     obtain ⟨k', hk', e1, e2⟩ := hmem
     subst e1
     have hbm : b ∈ bs := List.mem_of_getElem? hb
-    have hkl := (hwf b hbm).1 k' ((distinctKeys_mem _ _).mp hk')
-    have := getState_matches kgc (histBefore bs i) (histBefore_wf bs hwf i) k' hkl
+    have hkl := (hkeys b hbm).1 k' ((distinctKeys_mem _ _).mp hk')
+    have := getState_matches_local kgc (histBefore bs i) (histBefore_keysOK bs hkeys i) k' hkl
+      (by rw [histBefore_lwrites]; exact hns)
     rw [histBefore_lwrites] at this
     rw [← e2]
     exact this
@@ -93,31 +109,30 @@ latest one, or an older one — recovery restores the newest checkpoint the job 
 operator's own latest): invocation `i` receives one key state per distinct event key, and the state for `k` is the
 replay of the mutations returned by the *effective* earlier invocations — those before the restored checkpoint and
 those since the restore; what was returned after the restored checkpoint is gone, nothing else is lost or added. -/
-theorem restore_semantics (kgc : Nat) (steps : List OpStep) (hwf : ∀ b, OpStep.batch b ∈ steps → b.WF)
+theorem restore_semantics (kgc : Nat) (steps : List OpStep) (hkeys : ∀ b, OpStep.batch b ∈ steps → b.KeysOK)
     (i : Nat) (b : Batch) (hb : steps[i]? = some (.batch b)) :
     ∃ obs, (runOps kgc {} steps)[i]? = some (some obs) ∧
       obs.map (·.1) = distinctKeys b.events ∧
       ∀ k st, (k, st) ∈ obs →
+        NsOKFor k ((effective (steps.take i)).1.flatMap (fun b => b.resp.flatMap KeyResult.lwrites)) →
         Matches st (specLookup ((effective (steps.take i)).1.flatMap (fun b => b.resp.flatMap KeyResult.lwrites)) k) := by
   have h := runOps_get kgc steps {} ([], []) (opInv_init kgc) i b hb
   refine ⟨_, h, by simp [List.map_map, Function.comp_def], ?_⟩
-  intro k st hmem
+  intro k st hmem hns
   simp only [List.mem_map, Prod.mk.injEq] at hmem
   obtain ⟨k', hk', e1, e2⟩ := hmem
   subst e1
   have hbm : OpStep.batch b ∈ steps := List.mem_of_getElem? hb
-  have hkl := (hwf b hbm).1 k' ((distinctKeys_mem _ _).mp hk')
-  have heff : ∀ b' ∈ ((steps.take i).foldl effStep ([], [])).1, b'.WF :=
-    eff_all Batch.WF (steps.take i) ([], []) (by simp) (by simp)
-      (fun b' hb' => hwf b' (List.mem_of_mem_take hb'))
-  have hactswf : ∀ a ∈ ((steps.take i).foldl effStep ([], [])).1.flatMap Batch.acts ++ b.firedActs, a.WF := by
-    intro a ha
-    rcases List.mem_append.mp ha with ha | ha
-    · obtain ⟨b', hb', hab⟩ := List.mem_flatMap.mp ha
-      exact batch_acts_wf b' (heff b' hb') a hab
-    · exact batch_acts_wf b (hwf b hbm) a (by simp only [Batch.acts, List.mem_append]; exact Or.inl ha)
-  have := getState_matches kgc _ hactswf k' hkl
-  rw [List.flatMap_append, firedActs_lwrites, List.append_nil, batches_lwrites] at this
+  have hkl := (hkeys b hbm).1 k' ((distinctKeys_mem _ _).mp hk')
+  have heff : ∀ b' ∈ ((steps.take i).foldl effStep ([], [])).1, b'.KeysOK :=
+    eff_all Batch.KeysOK (steps.take i) ([], []) (by simp) (by simp)
+      (fun b' hb' => hkeys b' (List.mem_of_mem_take hb'))
+  have hl : (((steps.take i).foldl effStep ([], [])).1.flatMap Batch.acts ++ b.firedActs).flatMap Act.lwrites =
+      ((steps.take i).foldl effStep ([], [])).1.flatMap (fun b => b.resp.flatMap KeyResult.lwrites) := by
+    rw [List.flatMap_append, firedActs_lwrites, List.append_nil, batches_lwrites]
+  have := getState_matches_local kgc _ (batches_acts_keysOK _ heff b (hkeys b hbm)) k' hkl
+    (by rw [hl]; exact hns)
+  rw [hl] at this
   rw [← e2]
   exact this
 
@@ -142,42 +157,44 @@ theorem lsm_scan_refines_kv (kgc : Nat) (acts : List Act) (as : List Lsm.Act) (s
 /-- **GetState over the LSM.** After any sequence of `ApplyMutations` calls and timer writes, executed on the LSM with
 memtable rotations, flushes and compactions committing at arbitrary points (also between the single writes of one
 call), `GetState k` is exactly the per-key map of the mutations returned for `k`. -/
-theorem getState_over_lsm (kgc : Nat) (acts : List Act) (hwf : ∀ a ∈ acts, a.WF)
+theorem getState_over_lsm (kgc : Nat) (acts : List Act) (hkeys : ∀ a ∈ acts, a.KeysOK)
     (as : List Lsm.Act) (s : Lsm.State) (m : Lsm.Spec)
     (hrun : Lsm.runBoth {} [] as = some (s, m)) (hw : writesOf as = acts.flatMap (Act.rawWrites kgc))
-    (k : Bytes) (hk : k.length < 2 ^ 32) :
+    (k : Bytes) (hk : k.length < 2 ^ 32) (hns : NsOKFor k (acts.flatMap Act.lwrites)) :
     getStateLsm kgc s k = getState kgc (run kgc [] acts) k ∧
     Matches (getStateLsm kgc s k) (specLookup (acts.flatMap Act.lwrites) k) := by
   have e : getStateLsm kgc s k = getState kgc (run kgc [] acts) k := by
     simp only [getStateLsm, getState, decoded, lsm_scan_refines_kv kgc acts as s m hrun hw]
-  exact ⟨e, by rw [e]; exact getState_matches kgc acts hwf k hk⟩
+  exact ⟨e, by rw [e]; exact getState_matches_local kgc acts hkeys k hk hns⟩
 
 /-- the same when the scan runs in two phases (`db.mtables.ScanPrefix` in state `sA`, `db.currentSSTables()` later in
 state `sB`) with arbitrary background commits `as₂` in between: no flush or compaction landing inside a `GetState`
 changes what it returns -/
-theorem getState_over_lsm_two_phase (kgc : Nat) (acts : List Act) (hwf : ∀ a ∈ acts, a.WF)
+theorem getState_over_lsm_two_phase (kgc : Nat) (acts : List Act) (hkeys : ∀ a ∈ acts, a.KeysOK)
     (as₁ as₂ : List Lsm.Act) (sA sB : Lsm.State) (m m' : Lsm.Spec)
     (h1 : Lsm.runBoth {} [] as₁ = some (sA, m)) (hw : writesOf as₁ = acts.flatMap (Act.rawWrites kgc))
     (hnw : Lsm.noWrite as₂ = true) (h2 : Lsm.runBoth sA m as₂ = some (sB, m'))
-    (k : Bytes) (hk : k.length < 2 ^ 32) :
+    (k : Bytes) (hk : k.length < 2 ^ 32) (hns : NsOKFor k (acts.flatMap Act.lwrites)) :
     Matches (group (decodedOf (kvOfRun (Lsm.scan2 sA sB (Keys.subjectKey kgc k)))))
       (specLookup (acts.flatMap Act.lwrites) k) := by
   have hm : ∀ k, Lsm.answer (Lsm.Spec.get m k) = lastW (acts.flatMap (Act.rawWrites kgc)) k none := by
     intro k; rw [← hw]; exact answer_spec k as₁ {} [] sA m h1
   obtain ⟨_, hs, hr⟩ := C07.two_phase_scan as₁ as₂ sA sB m m' h1 hnw h2 (Keys.subjectKey kgc k)
   rw [run_eq_kv_scan kgc acts m _ _ hm hs hr]
-  exact getState_matches kgc acts hwf k hk
+  exact getState_matches_local kgc acts hkeys k hk hns
 
 /-- **Batch rule over the LSM.** Whatever rotations, flushes and compactions happened underneath before invocation `i`
 fetches its states (LSM history `as` whose foreground writes are those of the earlier invocations' results and of the
 timers fired so far): the state fetched for every event key is the replay of the mutations returned by invocations `< i`. -/
-theorem batch_semantics_over_lsm (kgc : Nat) (bs : List Batch) (hwf : ∀ b ∈ bs, b.WF) (i : Nat) (b : Batch)
+theorem batch_semantics_over_lsm (kgc : Nat) (bs : List Batch) (hkeys : ∀ b ∈ bs, b.KeysOK) (i : Nat) (b : Batch)
     (hb : bs[i]? = some b) (as : List Lsm.Act) (s : Lsm.State) (m : Lsm.Spec)
     (hrun : Lsm.runBoth {} [] as = some (s, m))
-    (hw : writesOf as = (histBefore bs i).flatMap (Act.rawWrites kgc)) (k : Bytes) (hk : k ∈ b.events) :
+    (hw : writesOf as = (histBefore bs i).flatMap (Act.rawWrites kgc)) (k : Bytes) (hk : k ∈ b.events)
+    (hns : NsOKFor k (mutsBefore bs i)) :
     Matches (getStateLsm kgc s k) (specLookup (mutsBefore bs i) k) := by
   have hbm : b ∈ bs := List.mem_of_getElem? hb
-  have := (getState_over_lsm kgc (histBefore bs i) (histBefore_wf bs hwf i) as s m hrun hw k ((hwf b hbm).1 k hk)).2
+  have := (getState_over_lsm kgc (histBefore bs i) (histBefore_keysOK bs hkeys i) as s m hrun hw k
+    ((hkeys b hbm).1 k hk) (by rw [histBefore_lwrites]; exact hns)).2
   rwa [histBefore_lwrites] at this
 
 /-- the length fields of the model's encoders are the ones the source writes (facts regenerated from
@@ -268,14 +285,24 @@ example : ((Lsm.run {} demoLsm).map (fun s => (s.mems.length, s.levels.map List.
 
 example (s : Lsm.State) (m : Lsm.Spec) (h : Lsm.runBoth {} [] demoLsm = some (s, m)) :
     getStateLsm 1 s [0x61] = [([0x61], [([3], [4])])] := by
-  have hwf : ∀ a ∈ demoLsmActs, a.WF := by
-    intro a ha w hw
-    simp only [demoLsmActs, List.mem_singleton] at ha
-    subst ha
-    simp [Act.lwrites, nsWrites] at hw
+  have hwf : ∀ w ∈ demoLsmActs.flatMap Act.lwrites, LWrite.WF w := by
+    intro w hw
+    simp [demoLsmActs, Act.lwrites, nsWrites] at hw
     rcases hw with rfl | rfl | rfl <;> simp [LWrite.WF]
-  rw [(getState_over_lsm 1 demoLsmActs hwf demoLsm s m h (by decide) [0x61] (by decide)).1]
+  have hkeys : ∀ a ∈ demoLsmActs, a.KeysOK := fun a ha w hw => (hwf w (List.mem_flatMap.mpr ⟨a, ha, hw⟩)).1
+  rw [(getState_over_lsm 1 demoLsmActs hkeys demoLsm s m h (by decide) [0x61] (by decide)
+    (fun w hw _ => (hwf w hw).2)).1]
   decide
+
+/-- the precondition is local: a 300-byte namespace used for ANOTHER key leaves the hypotheses for key `k` intact -/
+example (k other : Bytes) (hne : other ≠ k) (ws : List LWrite) (h : NsOKFor k ws) (ek : Bytes) :
+    NsOKFor k (ws ++ [(other, List.replicate 300 0x6f, ek, some [1])]) := by
+  intro w hw hk
+  rcases List.mem_append.mp hw with hw | hw
+  · exact h w hw hk
+  · simp only [List.mem_singleton] at hw
+    subst hw
+    exact absurd hk hne
 
 /-- the aliasing guard on concrete data -/
 example : Keys.dbKey 1 [] (List.replicate 256 0x6e) [7] = Keys.dbKey 1 [] [] (List.replicate 256 0x6e ++ [7]) :=
